@@ -5,6 +5,7 @@
   CedarProofs/PrivacyRecv.lean.
 -/
 import CedarProofs.PrivacyLemmas
+import CedarModel.PrivacyScope
 import CedarProofs.PrivacyRecv
 
 namespace Cedar.C09
@@ -173,6 +174,40 @@ theorem unredacted_types_fails :
   have := h (refEval 3) {} {} (leakAd "\"s1\"") (leakAd "\"s2\"") (by decide) (by decide)
   revert this
   decide
+
+/-- **the type trailer is independent of the private attributes of the ad's scopes**: the trailer
+    is evaluated, and the evaluator resolves `PARENT.x` / `TARGET.x` in the enclosing and the matched
+    ad. For every evaluator, every ad and every pair of scope ads that agree on their public
+    attributes, the two trailer values are the same — another ad's `ClaimId` cannot reach the
+    cleartext trailer through `MyType = TARGET.ClaimId` (fix a1f9ffc), whether or not the
+    serialised ad has private attributes of its own. -/
+theorem types_independent_of_scope_private (ev : EvalS) (enc : List Bytes) (ad : Ad)
+    (p1 p2 t1 t2 : Option Ad) (hp : p1.map redactScope = p2.map redactScope)
+    (ht : t1.map redactScope = t2.map redactScope) :
+    typeItemsScoped ev enc ad p1 t1 = typeItemsScoped ev enc ad p2 t2 := by
+  unfold typeItemsScoped
+  simp only [hp, ht]
+
+def scope_types_legacy_statement : Prop :=
+  ∀ (ev : EvalS) (enc : List Bytes) (ad : Ad) (p1 p2 t1 t2 : Option Ad),
+    p1.map redactScope = p2.map redactScope → t1.map redactScope = t2.map redactScope →
+    Legacy.typeItemsScoped ev enc ad p1 t1 = Legacy.typeItemsScoped ev enc ad p2 t2
+
+/-- a matched ad holding only a claim id -/
+def claimAd (secret : String) : Ad := [⟨asciiBytes "ClaimId", asciiBytes secret⟩]
+
+/-- **before the fix the statement was false** (found by the `privacy` engine on the Go code,
+    findings/F-C09-type-trailer-scope.json): with the scopes kept as they are, two matched ads that
+    differ only in their `ClaimId` give different trailers. -/
+theorem scope_types_legacy_fails : ¬ scope_types_legacy_statement := by
+  intro h
+  have := h targetClaimEval [] [] none none (some (claimAd "s1")) (some (claimAd "s2")) (by decide) (by decide)
+  revert this
+  decide
+
+/-- the fixed trailer of that witness carries neither secret -/
+example : typeItemsScoped targetClaimEval [] [] none (some (claimAd "s1")) =
+    typeItemsScoped targetClaimEval [] [] none (some (claimAd "s2")) := by decide
 
 /-! ## With the opt-in, on a stream that holds a key but is not encrypting -/
 
